@@ -92,6 +92,12 @@ def family(tier):
         [("dot", v, v), ("vsum", v), ("bin", "*", X, ("vsum", v))],
         [("param", "p")], [("bin", "*", ("param", "p"), X)],
         [("bin", "*", ("param", "p"), ("vsum", v))],
+        [("bin", "+", ("bin", "*", ("param", "p"), X), ("bin", "*", ("param", "q"), Y))],
+        [("bin", "+", ("bin", "*", ("param", "p"), X), Y), ("bin", "-", X, ("bin", "*", Y, ("param", "q")))],
+        [("bin", "-", ("bin", "*", ("bin", "+", ("param", "p"), ("num", 1.0)), X), ("param", "q"))],
+        [("bin", "*", ("bin", "*", ("param", "p"), X), Y), ("bin", "**", X, ("param", "q"))],
+        [("bin", "+", ("lincomb", [1.0, 2.0, 3.0], v), ("bin", "*", ("param", "p"), ("velem", v, 1)))],
+        [("bin", "*", ("un", "exp", ("param", "p")), ("dot", v, v))],
     ]
     fam = K.scalar_family(tier)
     if tier == "quick":
@@ -113,7 +119,8 @@ def items(tier, seed):
         rr = K.random_recipes(seed, 300, 2)
         rng = random.Random(seed)
         fam += [[r] for r in rr[:150]] + [[rr[i], rr[i + 1]] for i in range(150, 298, 2)]
-    return [("twin", 0)] + [("ls", ch) for ch in K.chunks(fam, 3)]
+    its = [("twin", 0)] + [("ls", ch) for ch in K.chunks(fam, 3)]
+    return its + K.touched_items(its, 3 if tier == "quick" else 1, ("ls",))
 
 
 def observe(recipes, order, val):
@@ -125,6 +132,9 @@ def observe(recipes, order, val):
         for d in K.declare(r):
             (b.V if d[0] == "vec" else b.M)(d)
     es = [b.S(r) for r in recipes]
+    if K.TOUCH:
+        for e_ in es:
+            K.touch(e_)
     decl = set(K.all_names(recipes)["vars"])
     V = [b.S(("var", n)) if n in decl else Variable(n) for n in order]
     x = np.empty(len(order), dtype=object)
@@ -162,6 +172,30 @@ def observe(recipes, order, val):
             return np.array([g.evaluate(point) for g in row], dtype=object)
         rec(f"jacobian_row[{i}]", jrow)
         rec(f"compute_jacobian[{i}]", lambda e=e: np.array([g.evaluate(point) for g in A.compute_jacobian([e], V)[0]], dtype=object))
+    if b.params and all(n + "'" in val for n in b.params):
+        # callables BUILT at the old parameter values, called after the parameters were updated
+        fns = {}
+
+        def mk(name, f):
+            try:
+                fns[name] = f()
+            except Exception as ex:  # noqa: BLE001
+                fns[name] = ex
+        mk("upd:compile_jacobian", lambda: A.compile_jacobian(es, V))
+        for i, e in enumerate(es):
+            mk(f"upd:compile_gradient[{i}]", lambda e=e: C.compile_gradient(e, V))
+            mk(f"upd:CompiledExpression.gradient[{i}]", lambda e=e: C.CompiledExpression(e, V).gradient)
+            mk(f"upd:compute_jacobian[{i}]", lambda e=e: (lambda _x, row=A.compute_jacobian([e], V)[0]: np.array([g.evaluate(point) for g in row], dtype=object)))
+        for n, p_ in b.params.items():
+            p_.set(val[n + "'"])
+        for name, f in fns.items():
+            if isinstance(f, Exception):
+                out[name] = f
+            elif name == "upd:compile_jacobian":
+                names[name] = f.__name__
+                rec(name, lambda f=f: np.asarray(f(x)).reshape(len(es), len(V)))
+            else:
+                rec(name, lambda f=f: np.asarray(f(x)).reshape(-1))
     out["__names__"] = names
     return out
 
@@ -173,25 +207,36 @@ def check_list(recipes, planted=False):
     names = K.all_names(recipes)
     used = names["vars"]
     orders = K.variable_orders(used, tier=_TIER)
-    allv = used + ["u0", "u1"] + names["syms"] + names["params"]
+    allv = used + ["u0", "u1"] + names["syms"] + names["params"] + [n + "'" for n in names["params"]]
     val = K.sym_val(allv)
-    # oracle rows per variable name
-    oracle = {}
+    val1 = {**val, **{n: val[n + "'"] for n in names["params"]}}
+    # oracle rows per variable name (and, for the parameter-update observations, at the updated values)
+    oracle, oracle_upd = {}, {}
     dom = []
+    dom_upd = []
     for i, r in enumerate(recipes):
         for w in used:
             ref = Ref(K.dual_val(val, w), diff=1)
             oracle[(i, w)] = K.tangent(ref.S(r)) + (1.0 if planted else 0.0)
             dom += ref.dom
+            if names["params"]:
+                ref = Ref(K.dual_val(val1, w), diff=1)
+                oracle_upd[(i, w)] = K.tangent(ref.S(r)) + (1.0 if planted else 0.0)
+                dom_upd += ref.dom
+    dom_upd = dom + dom_upd
+    dom_plain, oracle_plain = dom, oracle
     shp = "+".join(K.shape(r, 3) for r in recipes)
     for order in orders:
         for dec, labels, pc, out in K.explore(lambda: observe(recipes, order, val), max_paths=200):
             nm = out.pop("__names__")
             for k, v in nm.items():
                 PATHS_SEEN.add(v)
-            for name, got in out.items():
-                what = f"{name} {show(recipes)[:100]} V={order}"
-                payload = dict(kind="value", obs=name, recipes=K.enc(recipes), order=order)
+            for name_, got in out.items():
+                upd = name_.startswith("upd:")
+                name = name_[4:] if upd else name_
+                oracle, dom = (oracle_upd, dom_upd) if upd else (oracle_plain, dom_plain)
+                what = f"{name_} {show(recipes)[:100]} V={order}"
+                payload = dict(kind="value", obs=name_, recipes=K.enc(recipes), order=order)
                 if got is None:
                     continue
                 if isinstance(got, SymbolicConcretisation):
@@ -212,14 +257,16 @@ def check_list(recipes, planted=False):
                         o = oracle.get((idx0 + ri, w), 0.0 + (1.0 if planted else 0.0))
                         claims.append(smt.eq(rows[ri, j], o).t)
                 import z3
-                fp = nm.get(name, "")
-                sig = f"C03|{name.split('[')[0]}|{fp}|wrong-entry|{shp}"
+                fp = nm.get(name_, "")
+                sig = f"C03|{name_.split('[')[0]}|{fp}|wrong-entry|{shp}"
                 res.append(K.decide(claims, pc, dom, what + (f" via {fp}" if fp else ""), sig, payload, allv, QT[_TIER]))
     return res
 
 
 def check(item):
     kind, payload = item
+    if kind == "touched":
+        return K.run_touched(check, payload)
     if kind == "ls":
         out = K.safe_items(check_list, payload, show)
         out.append(dict(status="conformance", what="fast paths: " + ",".join(sorted(PATHS_SEEN)), points=0, paths=sorted(PATHS_SEEN)))
@@ -243,17 +290,22 @@ def shortcut_coverage(funcs, lines):
 
 
 def replay(payload):
+    r_ = K.replay_touched(replay, payload)
+    if r_ is not None:
+        return r_
     recipes = K.dec(payload["recipes"])
     order = payload["order"]
     name = payload["obs"]
     names = K.all_names(recipes)
-    allv = list(dict.fromkeys(names["vars"] + order + names["syms"] + names["params"]))
+    allv = list(dict.fromkeys(names["vars"] + order + names["syms"] + names["params"] + [n + "'" for n in names["params"]]))
+    upd = name.startswith("upd:")
     if payload["kind"] == "raises":
         out = observe(recipes, order, {n: 0.7 for n in allv})
         if isinstance(out[name], Exception):
             return True, f"{name} raises {type(out[name]).__name__}: {out[name]}"
         return False, "no exception on replay"
-    idx0 = 0 if name == "compile_jacobian" else int(name[name.index("[") + 1:-1])
+    base = name[4:] if upd else name
+    idx0 = 0 if base == "compile_jacobian" else int(base[base.index("[") + 1:-1])
     for pt in K.candidate_points(allv, payload.get("values", {}), 13):
         try:
             with np.errstate(all="ignore"):
@@ -262,12 +314,15 @@ def replay(payload):
             if got is None or isinstance(got, Exception):
                 continue
             rows = np.asarray(got, dtype=float)
-            rows = rows if name == "compile_jacobian" else rows.reshape(1, -1)
+            rows = rows if base == "compile_jacobian" else rows.reshape(1, -1)
+            rpt = {**pt, **{n: pt[n + "'"] for n in names["params"]}} if upd else pt
             for ri in range(rows.shape[0]):
                 for j, w in enumerate(order):
                     if w in names["vars"]:
                         with np.errstate(all="ignore"):
-                            r, ok = K.concrete_ref(recipes[idx0 + ri], pt, diff=1, wrt=w)
+                            r, ok = K.concrete_ref(recipes[idx0 + ri], rpt, diff=1, wrt=w)
+                            if upd and ok:
+                                ok = K.concrete_ref(recipes[idx0 + ri], pt, diff=1, wrt=w)[1]
                         if not ok:
                             raise ValueError("irregular")
                         ref = float(K.tangent(r))
